@@ -575,12 +575,16 @@ def build_branch(kind, j, log):
     m = _STOP_RE.match(kind)
     if m:
         typ, mut, k, acc = m.group(1), m.group(2), int(m.group(3)), m.group(4)
+        mel = _mutating(mut, t)
+        if mut == "count":
+            # a bare Count would be taken for the accumulator of a FillComputeSeq
+            mel = lena.core.FillInto(mel)
         if typ == "FC":
             tail = [StoreFilled()] if acc == "store" else [Variable("len" + t, len), Sum()]
-            return FillComputeSeq(pin, _mutating(mut, t), Slice(k), Probe(log, "mid"), *(tail + [pout]))
+            return FillComputeSeq(pin, mel, Slice(k), Probe(log, "mid"), *(tail + [pout]))
         tail = [StoreFilled()] if acc == "store" else [Variable("len" + t, len), Sum()]
         tail[-1] = FillRequest(tail[-1], reset=True, buffer_input=True)
-        return FillRequestSeq(pin, _mutating(mut, t), Slice(k), Probe(log, "mid"), *(tail + [pout]),
+        return FillRequestSeq(pin, mel, Slice(k), Probe(log, "mid"), *(tail + [pout]),
                               **{"reset": False, "buffer_input": True})
     raise ValueError(kind)
 
@@ -684,10 +688,22 @@ def _align(got, alone, zipped, fr, script):
     return pairs, None
 
 
+def _stops(kind, length):
+    """does this branch raise LenaStopFill when Split.run feeds it a flow of this length?"""
+    m = _STOP_RE.match(kind)
+    return (int(m.group(3)) < length) if m else (kind in FC_STOP_KINDS and length > 2)
+
+
 def split_case(driver, kinds, bufsize, script):
-    """-> list of (fid, what)"""
+    """-> list of (fid, what).  Interference seen next to a branch that has stopped gets its own fids (suffix
+    -next-to-a-stopped-branch): handing on what a stopped branch consumed is another defect than a missing copy."""
     kinds = list(kinds)
     js = list(range(len(kinds)))
+    stopped = [driver == "run" and _stops(k, script) for k in kinds]
+
+    def sfx(*own):
+        return "-next-to-a-stopped-branch" if any(s for j, s in enumerate(stopped) if j not in own) or \
+            (len(own) > 1 and any(stopped[j] for j in own)) else ""
     fr = all(k.startswith("FR:") for k in kinds)
     if driver == "run":
         base = "Split.run"
@@ -713,7 +729,7 @@ def split_case(driver, kinds, bufsize, script):
             exp_ins = pristine[:len(ins)]
             if ins != exp_ins:
                 n = [x != y for x, y in zip(ins, exp_ins)].index(True)
-                bad.append((base + "/branch-input-already-modified-by-another-branch",
+                bad.append((base + "/branch-input-already-modified-by-another-branch" + sfx(j),
                             "%s: branch %d received %r where the flow value is %r" % (where, j, ins[n], exp_ins[n])))
                 continue
         if a_outcome.split(":")[0] != outcome.split(":")[0]:
@@ -722,7 +738,7 @@ def split_case(driver, kinds, bufsize, script):
         d = [g[:2] != a[:2] for g, a in pairs]
         if True in d:
             g, a = pairs[d.index(True)]
-            bad.append((base + "/branch-result-differs-from-branch-alone",
+            bad.append((base + "/branch-result-differs-from-branch-alone" + sfx(j),
                         "%s: branch %d record #%d is %r, alone on a private copy of the flow it is %r"
                         % (where, j, d.index(True), g[:2], a[:2])))
         elif mismatch:
@@ -732,7 +748,7 @@ def split_case(driver, kinds, bufsize, script):
             d = [g[2] != a[2] for g, a in pairs]
             if True in d:
                 g, a = pairs[d.index(True)]
-                bad.append((base + "/branch-value-modified-after-the-branch-produced-it",
+                bad.append((base + "/branch-value-modified-after-the-branch-produced-it" + sfx(),
                             "%s: branch %d record #%d (%s) ended as %r, alone it ends as %r"
                             % (where, j, d.index(True), g[0], g[2], a[2])))
     # outcome: with Split every branch alone must end the same way as the whole (exceptions are not C04's subject,
@@ -752,7 +768,7 @@ def split_case(driver, kinds, bufsize, script):
             common = set(reaches[a]) & set(reaches[b])
             if common:
                 o = [reaches[a][i] for i in reaches[a] if i in common][0]
-                bad.append((base + "/branches-share-a-mutable-object",
+                bad.append((base + "/branches-share-a-mutable-object" + sfx(a, b),
                             "%s: branches %d and %d both hold the object %r" % (where, a, b, o)))
     return bad
 
@@ -864,11 +880,82 @@ def body(R):
             for b in (1, 2, None):
                 for L in (0, 2, 3):
                     do("run", kinds, b, L)
+    # ------------------------------------------------------------------ B: Split.run, branches that stop
+    # A branch whose in-place mutator stands BEFORE a Slice(K) has already changed value #K (and #0..#K-1) of its
+    # private copy of the block when it raises LenaStopFill.  Nothing of that copy may reach another branch: the
+    # stopping branch stands at every position, K and bufsize range over "first / middle / last value of a block,
+    # first / later block", the flow ends with the stopping value or goes on for another block.
+    if R.thorough:
+        st_ks, st_bufs = list(range(6)), [1, 2, 3, 4, None]
+        stoppers = (stop_kinds(("FC", "FR"), ("mut", "count"), st_ks, "store")
+                    + stop_kinds(("FC", "FR"), ("var",), st_ks, "sum"))
+        victims = ["S:mut", "FC:mut;store", "FR:mut;store", "S:var", "FC:var;lensum", "SRC:count2"]
+        victims4 = victims[:2]
+    else:
+        st_ks, st_bufs = list(range(4)), [1, 2, 3, None]
+        stoppers = stop_kinds(("FC", "FR"), ("mut",), st_ks, "store")
+        victims = ["S:mut", "FC:mut;store", "FR:mut;store"]
+        victims4 = victims[1:2]
+
+    def stop_k(kind):
+        return int(_STOP_RE.match(kind).group(3))
+
+    def stop_lengths(k, b):
+        ls = [k + 1, k + 1 + (b or 2)]
+        if R.thorough:
+            ls.insert(1, k + 2)
+        return ls
+    stop_lists = []
+    for st in stoppers:
+        for v in victims:
+            stop_lists += [(st, v), (v, st)]
+        for v1, v2 in itertools.product(victims, repeat=2):
+            stop_lists += [(st, v1, v2), (v1, st, v2)]
+        for v in victims:
+            stop_lists.append((v, v, st))
+        for vs in itertools.product(victims4, repeat=3):
+            for pos in range(4):
+                stop_lists.append(vs[:pos] + (st,) + vs[pos:])
+    R.scope("Split.run, copy_buf=True, a branch stops (LenaStopFill) after it has changed the values in place",
+            "%d branch lists: one stopping branch <FillComputeSeq|FillRequestSeq>(probe, in-place mutator (%s), "
+            "Slice(K), accumulator), K in %r, at every position of lists of length 2 and 3 (other branches: all "
+            "choices from %r; stopping branch last: two equal ones) and of length 4 (others from %r); bufsize in %r "
+            "(the stop falls on the first / a middle / the last value of a block, in the first or a later block); flow "
+            "lengths %s; every branch vs the branch alone, vs the pristine flow, identity graphs disjoint"
+            % (len(stop_lists), "user mutator, Variable, Count.fill_into" if R.thorough else "user mutator", st_ks,
+               victims, victims4, st_bufs,
+               "K+1 (the stopping value is the last one), K+2, K+1+bufsize (K+3 for None)" if R.thorough else
+               "K+1 (the stopping value is the last one), K+1+bufsize (K+3 for None)"), True)
+    for kinds in stop_lists:
+        k = max(stop_k(x) for x in kinds if _STOP_RE.match(x))
+        for b in st_bufs:
+            for L in stop_lengths(k, b):
+                do("run", kinds, b, L)
+    two_ks = st_ks[:4] if R.thorough else st_ks[:3]
+    two_lists = []
+    for t1, t2 in (itertools.product(("FC", "FR"), repeat=2) if R.thorough else [("FC", "FC"), ("FR", "FC")]):
+        for k1, k2 in itertools.product(two_ks, repeat=2):
+            a, b_ = stop_kinds((t1,), ("mut",), [k1])[0], stop_kinds((t2,), ("mut",), [k2])[0]
+            for v in victims[:2]:
+                two_lists += [(a, b_, v, v), (a, v, b_, v)]
+    R.scope("Split.run, copy_buf=True, two branches stop after they have changed the values in place",
+            "%d branch lists [stop K1, stop K2, v, v] and [stop K1, v, stop K2, v], K1, K2 in %r (both stop on the same "
+            "value, in the same block, in different blocks), v in %r; bufsize in %r; flow lengths max(K)+1, "
+            "max(K)+1+bufsize" % (len(two_lists), two_ks, victims[:2], st_bufs), True)
+    for kinds in two_lists:
+        k = max(stop_k(x) for x in kinds if _STOP_RE.match(x))
+        for b in st_bufs:
+            for L in (k + 1, k + 1 + (b or 2)):
+                do("run", kinds, b, L)
     nrand = 3000 if R.thorough else 500
-    R.scope("Split.run, copy_buf=True", "%d random branch lists of length 1..5, bufsize in {1,2,3,4,7,1000,None}, "
-            "flow length 0..7" % nrand, False)
+    R.scope("Split.run, copy_buf=True", "%d random branch lists of length 1..5 (each branch with probability 0.3 a "
+            "stopping one: in-place mutator from {user mutator, Variable, UpdateContext, MakeFilename, Count} before "
+            "Slice(K), K in 0..6), bufsize in {1,2,3,4,7,1000,None}, flow length 0..7" % nrand, False)
+    rand_stop = stop_kinds(("FC", "FR"), ("mut", "var", "upd", "updrec", "mkfn", "count"), range(7), "store") \
+        + stop_kinds(("FC", "FR"), ("mut", "var", "count"), range(7), "sum")
     for _ in range(nrand):
-        kinds = [rng.choice(run_kinds) for _ in range(rng.randint(1, 5))]
+        kinds = [rng.choice(rand_stop) if rng.random() < 0.3 else rng.choice(run_kinds)
+                 for _ in range(rng.randint(1, 5))]
         do("run", kinds, rng.choice([1, 2, 3, 4, 7, 1000, None]), rng.randint(0, 7))
 
     # ------------------------------------------------------------------ B: fill-driven
